@@ -19,7 +19,9 @@
    * a probe = (function, instruction, mode) with its operators (first operator: a unique marker constant).  Its
      record names that function by its index in the encoded module, that instruction and mode, carries the
      probe's tag, and its body is exactly the run of operators emitted for the probe in the encoded function
-     (same index space), read back from the real encoding. *)
+     (same index space), read back from the real encoding.  A probe whose code the encoder drops (after / alternate
+     code of the function's final `end`, alternate or special code on an instruction that a block-alt removes) is no
+     side effect of the encoded module: a record is required for the tagged probes whose marker occurs in the encoding. *)
 From Coq Require Import List Arith NArith ZArith Bool Lia.
 Import ListNotations.
 From Orca Require Import Util Flat Lowering CheckLow Reindex CheckReidx SideFx.
@@ -85,6 +87,12 @@ Definition resolved (c : scase) : option (list (fop * flags)) :=
       let has_special := sp || negb (is_nil entry) || negb (is_nil exit) in
       Some (fst (Lowering.resolve has_special entry exit 0 fb (mkLocals 0 0 [])))
   end.
+(* the flags after the injection calls, before resolve_special_instrumentation *)
+Definition flagged (c : scase) : option (list (fop * flags)) :=
+  match apply_plan false (plan3 (s_plan c)) (map (fun o => (o, no_flags)) (sb_body c)) false with
+  | None => None
+  | Some (fb, _) => Some fb
+  end.
 Definition has_special_of (c : scase) : bool :=
   match apply_plan false (plan3 (s_plan c)) (map (fun o => (o, no_flags)) (sb_body c)) false with
   | None => false
@@ -120,7 +128,14 @@ Definition model_out (c : scase) (s : sst) : option mout :=
       | Some r, Some pos =>
           let remap := remap_all mf mg mm in
           match fx_func_probes pos (has_special_of c) (ops_of (s_entry c)) (ops_of (s_exit c)) (tag_of_fl (s_entry c)) (tag_of_fl (s_exit c)) remap,
-                fx_loc_probes pos (length r - 1) 0 r (plan_tag (s_plan c)) remap,
+                (* a function with special instrumentation is reported by the resolver, from the flags before the lowering;
+                   the others by add_opcode_injections in the code loop *)
+                (if has_special_of c
+                 then match flagged c with
+                      | Some fb => fx_unresolved pos (length fb - 1) 0 fb (mkSite [0%nat] None true) (plan_tag (s_plan c)) remap
+                      | None => None
+                      end
+                 else fx_loc_probes pos (length r - 1) 0 r (plan_tag (s_plan c)) remap),
                 remap (Lowering.emit r) with
           | Some fp, Some lp, Some body =>
               Some (mkOut (nonempty [(K_TYPE, fx_types s); (K_IMPORT, fx_imports s); (K_EXPORT, fx_exports s); (K_MEMORY, fx_mems s lm);
@@ -339,7 +354,7 @@ Definition probe_rec_ok (c : scase) (e : emod) (emitted : list fop) (r : srec) :
           && tag_ok t (r_tag r)
           && match find_run z (length ops) emitted with
              | Some run => fops_eqb run (r_body r)                                     (* the operators the encoder emitted for the probe *)
-             | None => true                                                            (* the probe is not emitted (after / alternate of the final end) *)
+             | None => true                                                            (* the probe is not emitted *)
              end
           && refs_ok (spec_fin c) e ops (r_body r)                                     (* same index space as the encoded module *)
       end
@@ -348,8 +363,14 @@ Definition probes_sound (c : scase) (e : emod) (emitted : list fop) (recs : list
   forallb (probe_rec_ok c e emitted) recs.
 Definition probes_once (recs : list srec) : bool :=
   nodup_by (fun a b => match a, b with Some x, Some y => Z.eqb x y | _, _ => false end) (map (fun r => marker_of (r_body r)) recs).
-Definition probes_complete (c : scase) (recs : list srec) : bool :=
+(* every probe that carries a tag and that the encoder emitted (its marker occurs in the encoded function: the code
+   the encoder drops - after / alternate code of the final `end`, code inside a region removed by block-alt - is no
+   side effect) has a record *)
+Fixpoint has_marker (z : Z) (l : list fop) : bool :=
+  match l with [] => false | FConst z' :: t => Z.eqb z z' || has_marker z t | _ :: t => has_marker z t end.
+Definition probes_complete (c : scase) (emitted : list fop) (recs : list srec) : bool :=
   forallb (fun p => negb (carries_tag (snd p))
+                    || negb (match marker_of (snd (fst p)) with Some z => has_marker z emitted | None => false end)
                     || existsb (fun r => match marker_of (r_body r), marker_of (snd (fst p)) with
                                          | Some a, Some b => Z.eqb a b | _, _ => false end) recs) (all_probes c).
 
@@ -357,7 +378,7 @@ Definition holds (c : scase) : bool :=
   match so_fx c, so_enc c with
   | Some fx, Some (e, emitted) =>
       additions_ok (spec_fin c) fx
-      && probes_sound c e emitted (recs_of fx K_PROBE) && probes_once (recs_of fx K_PROBE) && probes_complete c (recs_of fx K_PROBE)
+      && probes_sound c e emitted (recs_of fx K_PROBE) && probes_once (recs_of fx K_PROBE) && probes_complete c emitted (recs_of fx K_PROBE)
   | _, _ => true
   end.
 
@@ -375,20 +396,15 @@ Definition in_domain (c : scase) : bool :=
 
 (* ------------------------------------------------------------------------------------------ *)
 (* known classes *)
-Definition is_special_mode (m : mode) : bool := match m with MBefore | MAfter | MAlternate => false | _ => true end.
-(* D22: a special-mode probe (lowered onto before / after / alternate lists of other instructions without its
-   tag) or a function entry / exit probe (reported as FuncProbe and again through the lowered lists) *)
-Definition known_D22 (c : scase) : bool :=
-  existsb (fun x : probe => let '(_, m, _, _) := x in is_special_mode m) (s_plan c)
-  || match s_entry c with Some _ => true | None => false end
-  || match s_exit c with Some _ => true | None => false end.
+(* D22 (special-mode probes were reported through the before / after / alternate lists they were lowered to: without
+   their tags, under another instruction / mode, merged with other probes; function entry / exit probes a second time) is
+   repaired: a function with special instrumentation is reported by resolve_special_instrumentation from the lists as
+   they are before the lowering; the class is gone. *)
 (* D06 (index-space defect of C06 / C07: an import added after parsing and deleted again stayed in the vector, so
    ids were mapped to vector positions that are not the indices of the encoded module) is repaired: recalculate_ids
    drops every deleted item; the class is gone. *)
-(* 205: the after / alternate list of the function's final `end` is never emitted and never re-mapped, but it is
-   reported: a record whose body still has the ids of the API *)
-Definition known_205 (c : scase) : bool :=
-  existsb (fun x : probe => let '(i, m, _, _) := x in Nat.eqb (S i) (length (sb_body c)) && negb (N.eqb (mode_code m) 0)) (s_plan c).
+(* 205 (the after / alternate list of the function's final `end`, which the encoder drops without re-mapping it, was
+   reported) is repaired: the report follows the encoder's rule; the class is gone. *)
 
 Definition explain (failed : bool) (c : scase) (cands : list (N * (scase -> bool))) : list N :=
   if failed then match flat_map (fun kp : N * (scase -> bool) => if snd kp c then [fst kp] else []) cands with [] => [299] | l => l end
@@ -401,14 +417,13 @@ Definition failing_classes (c : scase) : list N :=
       let s := spec_fin c in
       explain (negb (forallb (kind_ok s fx) addition_kinds)) c []
       ++ explain (negb (forallb (fun kv => existsb (N.eqb (fst kv)) (K_PROBE :: addition_kinds)) fx)) c []
-      ++ explain (negb (probes_sound c e emitted (recs_of fx K_PROBE) && probes_once (recs_of fx K_PROBE) && probes_complete c (recs_of fx K_PROBE)))
-                 c [(22, known_D22); (205, known_205)]
+      ++ explain (negb (probes_sound c e emitted (recs_of fx K_PROBE) && probes_once (recs_of fx K_PROBE) && probes_complete c emitted (recs_of fx K_PROBE)))
+                 c []
   | _, _ => []
   end.
 Definition verdict23 (c : scase) : Util.verdict :=
   (agree c, in_domain c, holds c,
-   if holds c then (if known_D22 c then [22] else []) ++ (if known_205 c then [205] else [])
-   else dedupN (failing_classes c)).
+   if holds c then [] else dedupN (failing_classes c)).
 Definition report_C23 := run_report verdict23.
 
 (* ------------------------------------------------------------------------------------------ *)
